@@ -80,8 +80,12 @@ func harnessC08Hooks() {
 			rec(5)
 		}))
 	}
+	if variant == 0 && vBool() {
+		opts = append(opts, WithPanicHandler(nil)) // explicitly no panic handler: a handler panic is still contained
+	}
 	bus := New(opts...)
 	if plainViaSetters {
+		bus.SetPanicHandler(nil)
 		if hookB {
 			bus.SetBeforePublishHook(fnB)
 		}
